@@ -331,24 +331,28 @@ VERSIONS = ["1.0", "1.0-1", "1:1.4.1-1", "0", "2.0~rc1-1", "1.2.3", "0.1.2+b1", 
             "1.0-0ubuntu1", "2024.01.01", "9z", "0:0", "1.0+dfsg-1~bpo9+1", "12:3.4.5a-6", "1-1-1", "3.0A"]
 
 
+# (strategies are built once at import: constructing them inside a composite costs more than the draw)
+_epochs = st.sampled_from(["", "", "", "0:", "1:", "12:", "007:"])
+_revs = st.one_of(st.sampled_from(["", "", "-1", "-0ubuntu1", "-1~bpo9+1", "-1.1"]),
+                  st.text(alphabet="aZ019.+~", min_size=1, max_size=4).map(lambda r: "-" + r))
+_digit = st.sampled_from("0123456789")
+_up_rest = {(e, r): st.text(alphabet="abAZ0159.+~" + (":" if e else "") + ("-" if r else ""), min_size=0, max_size=6)
+            for e in (False, True) for r in (False, True)}
+
+
 @st.composite
 def _gen_versions(draw):
-    epoch = draw(st.sampled_from(["", "", "", "0:", "1:", "12:", "007:"]))
-    rev = draw(st.one_of(
-        st.sampled_from(["", "", "-1", "-0ubuntu1", "-1~bpo9+1", "-1.1"]),
-        st.text(alphabet="aZ019.+~", min_size=1, max_size=4).map(lambda r: "-" + r)))
-    chars = "abAZ0159.+~"
-    if epoch:
-        chars += ":"
-    if rev:
-        chars += "-"
-    up = draw(st.sampled_from("0123456789")) + draw(
-        st.text(alphabet=chars, min_size=0, max_size=6))
-    return epoch + up + rev
+    epoch = draw(_epochs)
+    rev = draw(_revs)
+    # ':' only with an epoch, '-' only when a revision follows
+    return epoch + draw(_digit) + draw(_up_rest[(bool(epoch), bool(rev))]) + rev
+
+
+_versions = st.one_of(st.sampled_from(VERSIONS), st.sampled_from(VERSIONS), _gen_versions())
 
 
 def versions():
-    return st.one_of(st.sampled_from(VERSIONS), st.sampled_from(VERSIONS), _gen_versions())
+    return _versions
 
 
 _dist = st.one_of(
@@ -378,9 +382,12 @@ _keys = st.one_of(
 _values = st.one_of(st.sampled_from(["yes", "a b", "x=y", "é", ";", "1.0~a", "(v)", "a;b=c"]), _nocomma_text)
 
 
+_npairs = st.sampled_from([0, 0, 0, 1, 1, 2])
+
+
 @st.composite
-def pair_lists(draw):
-    n = draw(st.sampled_from([0, 0, 0, 1, 1, 2]))
+def _pair_lists(draw):
+    n = draw(_npairs)
     out, seen = [], set(["urgency"])
     for _ in range(n):
         k = draw(_keys)
@@ -389,6 +396,13 @@ def pair_lists(draw):
         seen.add(k.lower())
         out.append([k, draw(_values)])
     return out
+
+
+_pairs = _pair_lists()
+
+
+def pair_lists():
+    return _pairs
 
 
 _indent = st.sampled_from(["  ", "  ", "  ", "   ", "    ", "      ", "  \t"])
@@ -425,18 +439,28 @@ change_lines = st.one_of(
 blank_lines = st.sampled_from(["", "", "", "", " ", "  ", "\t", "   "])
 
 
+_shapes = st.sampled_from(["std", "std", "free", "free", "tight"])
+_std_items = st.lists(st.one_of(change_lines, change_lines, change_lines, blank_lines), min_size=0, max_size=4)
+_tight_items = st.lists(change_lines, max_size=2)
+_pre_blanks = st.lists(blank_lines, max_size=2)
+_free_items = st.lists(st.one_of(change_lines, change_lines, blank_lines), max_size=5)
+
+
 @st.composite
-def change_lists(draw):
-    shape = draw(st.sampled_from(["std", "std", "free", "free", "tight"]))
+def _change_lists(draw):
+    shape = draw(_shapes)
     if shape == "std":
-        items = draw(st.lists(st.one_of(change_lines, change_lines, change_lines, blank_lines),
-                              min_size=0, max_size=4))
-        return [""] + [draw(change_lines)] + items + [""]
+        return [""] + [draw(change_lines)] + draw(_std_items) + [""]
     if shape == "tight":
-        return [draw(change_lines)] + draw(st.lists(change_lines, max_size=2))
-    pre = draw(st.lists(blank_lines, max_size=2))
-    rest = draw(st.lists(st.one_of(change_lines, change_lines, blank_lines), max_size=5))
-    return pre + [draw(change_lines)] + rest
+        return [draw(change_lines)] + draw(_tight_items)
+    return draw(_pre_blanks) + [draw(change_lines)] + draw(_free_items)
+
+
+_changes = _change_lists()
+
+
+def change_lists():
+    return _changes
 
 
 names = st.one_of(
@@ -448,26 +472,38 @@ emails = st.one_of(
     st.text(alphabet="abz019.+@-_", min_size=1, max_size=10))
 
 
+_days = st.integers(1, 31)
+_bool = st.booleans()
+_dow_or_not = st.sampled_from(DOWS + DOWS + DOWS + [""] * 7)
+_hours = st.integers(0, 23)
+_two_digit_hour = st.sampled_from([True, True, False])
+_months = st.sampled_from(MONTHS)
+_years = st.sampled_from(["1996", "2000", "2006", "2024", "0999", "9999"])
+_sixty = st.integers(0, 59)
+_sign = st.sampled_from("+-")
+_zone = st.sampled_from(["0000", "0100", "0530", "1245", "9999"])
+
+
 @st.composite
-def dates(draw):
-    day = draw(st.integers(1, 31))
-    two = draw(st.booleans())
-    daystr = "%02d" % day if two else "%d" % day
-    dow = draw(st.sampled_from(["dow", "dow", "dow", "none"]))
-    if dow == "none":
-        prefix = ""
-    else:
-        sep = ", "
-        if len(daystr) == 1 and draw(st.booleans()):
-            sep = ",  "            # date -R pads the day with a blank
-        prefix = draw(st.sampled_from(DOWS)) + sep
-    hour = draw(st.integers(0, 23))
-    hourstr = "%02d" % hour if draw(st.sampled_from([True, True, False])) else "%d" % hour
+def _dates(draw):
+    day = draw(_days)
+    daystr = "%02d" % day if draw(_bool) else "%d" % day
+    prefix = draw(_dow_or_not)
+    if prefix:
+        # date -R pads a one-digit day with a blank
+        prefix += ",  " if (len(daystr) == 1 and draw(_bool)) else ", "
+    hour = draw(_hours)
+    hourstr = "%02d" % hour if draw(_two_digit_hour) else "%d" % hour
     return "%s%s %s %s %s:%02d:%02d %s%s" % (
-        prefix, daystr, draw(st.sampled_from(MONTHS)),
-        draw(st.sampled_from(["1996", "2000", "2006", "2024", "0999", "9999"])),
-        hourstr, draw(st.integers(0, 59)), draw(st.integers(0, 59)),
-        draw(st.sampled_from("+-")), draw(st.sampled_from(["0000", "0100", "0530", "1245", "9999"])))
+        prefix, daystr, draw(_months), draw(_years), hourstr, draw(_sixty), draw(_sixty),
+        draw(_sign), draw(_zone))
+
+
+_dates_st = _dates()
+
+
+def dates():
+    return _dates_st
 
 
 date_trails = st.sampled_from(["", "", "", "", " ", "  ", "\t"])
@@ -476,20 +512,37 @@ lead_lines = st.sampled_from([[], [], [], [], [], [""], ["", ""], [" "], ["", "\
 
 
 @st.composite
-def blocks(draw):
+def _blocks(draw):
     return {
-        "package": draw(packages), "version": draw(versions()), "dists": draw(dist_lists),
-        "urgency": draw(urgencies), "ucomment": draw(ucomments), "pairs": draw(pair_lists()),
-        "changes": draw(change_lists()),
-        "name": draw(names), "email": draw(emails), "date": draw(dates()), "dtrail": draw(date_trails),
+        "package": draw(packages), "version": draw(_versions), "dists": draw(dist_lists),
+        "urgency": draw(urgencies), "ucomment": draw(ucomments), "pairs": draw(_pairs),
+        "changes": draw(_changes),
+        "name": draw(names), "email": draw(emails), "date": draw(_dates_st), "dtrail": draw(date_trails),
         "after": list(draw(after_lines)),
     }
 
 
+_blocks_st = _blocks()
+
+
+def blocks():
+    return _blocks_st
+
+
+_nblocks = {m: st.sampled_from([1, 1, 2, 2, 3, m]) for m in (1, 2, 3, 4)}
+
+
 @st.composite
-def structs(draw, max_blocks=4):
-    n = draw(st.sampled_from([1, 1, 2, 2, 3, max_blocks]))
-    return {"lead": list(draw(lead_lines)), "blocks": [draw(blocks()) for _ in range(n)]}
+def _structs(draw, max_blocks):
+    n = min(draw(_nblocks[max_blocks]), max_blocks)
+    return {"lead": list(draw(lead_lines)), "blocks": [draw(_blocks_st) for _ in range(n)]}
+
+
+_structs_st = {m: _structs(m) for m in (1, 2, 3, 4)}
+
+
+def structs(max_blocks=4):
+    return _structs_st[max_blocks]
 
 
 # values "valid for the format" for the editing histories of C15
@@ -671,31 +724,42 @@ _HEADER_DAMAGES = list(range(N_HEADER_DAMAGE)) + [2, 4, 13, 14, 9]
 _TRAILER_DAMAGES = list(range(N_TRAILER_DAMAGE)) + [0, 0, 0, 2, 3]
 
 
-@st.composite
-def mutated_lines(draw, max_ops=4):
-    """Lines of a well-formed changelog after 0..max_ops line operations.
+_index_cache = {}
 
-    Operations: insert a pool/wide line anywhere, right after a trailer or at the top; spoil a
-    header or a trailer in place; delete, duplicate (to anywhere) or swap lines.  Positions are
-    drawn uniformly (``sampled_from``), not with the small-value bias of ``integers``.
-    """
+
+def _index(n):
+    """Uniform position in range(n) (one cached strategy per n)."""
+    if n not in _index_cache:
+        _index_cache[n] = st.sampled_from(range(n))
+    return _index_cache[n]
+
+
+_nops = {m: st.sampled_from([0, 1, 1, 2, 2, 3, 3, m][:4 + m]) for m in (1, 2, 3, 4)}
+_op = st.sampled_from(_OPS)
+_truncate = st.sampled_from([False] * 7 + [True])
+_inserted = st.one_of(junk_lines, junk_lines, junk_lines, junk_lines, wide_lines)
+_header_damage = st.sampled_from(_HEADER_DAMAGES)
+_trailer_damage = st.sampled_from(_TRAILER_DAMAGES)
+
+
+@st.composite
+def _mutated_lines(draw, max_ops):
     rl = _roled_lines(draw(structs(max_blocks=3)))
-    if draw(st.sampled_from([False] * 7 + [True])):
+    if draw(_truncate):
         # plain truncation: the classical way to end up inside a block at end of input
-        del rl[draw(st.sampled_from(range(1, len(rl) + 1))):]
-    nops = draw(st.sampled_from([0, 1, 1, 2, 2, 3, 3, max_ops][:4 + max_ops]))
+        del rl[1 + draw(_index(len(rl))):]
+    nops = draw(_nops[max_ops])
     for _ in range(nops):
-        op = draw(st.sampled_from(_OPS))
+        op = draw(_op)
         if op in ("ins", "ins-after-trailer", "ins-top"):
-            new = draw(st.one_of(junk_lines, junk_lines, junk_lines, junk_lines, wide_lines))
+            new = draw(_inserted)
             if op == "ins":
-                pos = draw(st.sampled_from(range(len(rl) + 1)))
+                pos = draw(_index(len(rl) + 1))
             elif op == "ins-top":
                 pos = 0
             else:
-                spots = [i + 1 for i, (r, _) in enumerate(rl) if r == "trailer"]
-                spots += [i + 1 for i, (r, _) in enumerate(rl) if r == "after"]
-                pos = draw(st.sampled_from(spots)) if spots else len(rl)
+                spots = [i + 1 for i, (r, _) in enumerate(rl) if r in ("trailer", "after")]
+                pos = spots[draw(_index(len(spots)))] if spots else len(rl)
             rl.insert(pos, ("junk", new))
             continue
         if not rl:
@@ -705,26 +769,42 @@ def mutated_lines(draw, max_ops=4):
             spots = [i for i, (r, _) in enumerate(rl) if r == role]
             if not spots:
                 continue
-            i = draw(st.sampled_from(spots))
+            i = spots[draw(_index(len(spots)))]
             if role == "header":
-                line = damage_header(rl[i][1], draw(st.sampled_from(_HEADER_DAMAGES)))
+                line = damage_header(rl[i][1], draw(_header_damage))
             else:
-                line = damage_trailer(rl[i][1], draw(st.sampled_from(_TRAILER_DAMAGES)))
+                line = damage_trailer(rl[i][1], draw(_trailer_damage))
             rl[i] = ("junk", line)
             continue
-        p = draw(st.sampled_from(range(len(rl))))
+        p = draw(_index(len(rl)))
         if op == "del":
             del rl[p]
         elif op == "dup":
-            rl.insert(draw(st.sampled_from(range(len(rl) + 1))), rl[p])
+            rl.insert(draw(_index(len(rl) + 1)), rl[p])
         else:
             q = (p + 1) % len(rl)
             rl[p], rl[q] = rl[q], rl[p]
     return [l for _, l in rl]
 
 
-@st.composite
-def free_lines(draw):
+_mutated_st = {m: _mutated_lines(m) for m in (1, 2, 3, 4)}
+
+
+def mutated_lines(max_ops=4):
+    """Lines of a well-formed changelog after 0..max_ops line operations.
+
+    Operations: insert a pool/wide line anywhere, right after a trailer (or the blank lines that
+    follow it) or at the top; spoil a header or a trailer in place; delete, duplicate (to anywhere)
+    or swap lines; one case in eight is first truncated.  Positions are drawn uniformly
+    (``sampled_from``), not with the small-value bias of ``integers``.
+    """
+    return _mutated_st[max_ops]
+
+
+_free_st = st.lists(st.one_of(junk_lines, junk_lines, junk_lines, wide_lines, any_lines, change_lines,
+                              blank_lines), min_size=0, max_size=8)
+
+
+def free_lines():
     """Arbitrary documents: junk-pool lines, wide-alphabet lines, arbitrary Unicode lines."""
-    return draw(st.lists(st.one_of(junk_lines, junk_lines, junk_lines, wide_lines, any_lines, change_lines,
-                                   blank_lines), min_size=0, max_size=8))
+    return _free_st
